@@ -122,9 +122,37 @@ func runC16(c *Ctx) {
 			if len(ops) == 0 {
 				c.OK("C16.K3-shutdown-alternative", f.Name+" › does not wait", f.SSA.Pos(), "no channel operation, select or wait in the pubsub sender's Send")
 			}
+			// …nor asks the pubsub library to: Publish is called without options (a readiness option makes Publish wait
+			// until the router has enough peers — with none around, for as long as the caller's context lives)
+			for _, cs := range c.Calls(f.SSA, AnyCall("Topic).Publish")) {
+				waits := len(c.Calls(f.SSA, CallLike([]string{"go-libp2p-pubsub.WithReadiness"}))) > 0
+				c.Check(!waits, "C16.K3-shutdown-alternative", f.Name+" › Publish does not wait for readiness", cs.In.Pos(), "Topic.Publish is called without a readiness option", "Topic.Publish is given a readiness option: it then waits for peers inside Send, where the receiver's Close cannot wake it")
+			}
 		}
 		if nSend == 0 {
 			c.Unk("C16.K3-shutdown-alternative", "announce/p2psender.(*Sender).Send", token.NoPos, "not found")
+		}
+		// …and whatever a sender counts in (a wait group of calls in flight that its Close waits for) it counts out on
+		// every path: an early return between Add and Done leaves the count up, and the receiver's Close — which closes
+		// the sender — waits for good
+		for _, sub := range []string{"announce/p2psender", "announce/httpsender"} {
+			for _, f := range c.Funcs(sub) {
+				for _, cs := range c.Calls(f.SSA, Call("sync.WaitGroup).Add")) {
+					if cs.Fn != f.SSA {
+						continue
+					}
+					wg := cs.X.Args[0]
+					ok, path := pathsFromPass(cs.In, func(in ssa.Instruction) bool {
+						ci, isCall := in.(ssa.CallInstruction)
+						if !isCall {
+							return false
+						}
+						m, isDone := Match(Call("sync.WaitGroup).Done", Bind("w")), c.CallX(ci))
+						return isDone && Same(m["w"], wg)
+					})
+					c.Check(ok, "C16.K3-shutdown-alternative", f.Name+" › counted in, counted out", cs.In.Pos(), "every path from WaitGroup.Add to a return passes (or defers) the matching Done", "a path from WaitGroup.Add to a return skips the matching Done ("+path+"): the sender's Close, and with it the receiver's, waits forever")
+				}
+			}
 		}
 	}
 	c.Floor("C16.K3-shutdown-alternative", 4)
